@@ -325,6 +325,9 @@ public:
          object.reDim(num());
       }
 
+      scaleExp.reSize(num());
+      scaleExp[num() - 1] = 0;
+
       low[num() - 1] = *lowerValue;
       up[num() - 1] = *upperValue;
       object[num() - 1] = *objValue;
